@@ -401,9 +401,23 @@ def leaf1(cfg):
                     res.count('leaf allocations')
                     a0, a1 = xsig(f, e['args'][0], inits), xsig(f, e['args'][1], inits)
                     ok = a0 == 'p0.size()' and a1 in ('p1.size()', 'p1.size_bytes()')    # a span of std::byte: size() == size_bytes()
+                    # the sizes reach compute_size as wide as the leaf stores them: no conversion narrower than the parameter
+                    tg = f.callee(e)
+                    narrow = None
+                    for ai, a in enumerate(e['args']):
+                        pw = (tg.params[ai].get('w') if tg is not None and ai < len(tg.params) else None) or 32
+                        x = f.resolve(a)
+                        d_ = 0
+                        while isinstance(x, dict) and x.get('k') in ('cast', 'initlist') and d_ < 6:
+                            if x.get('k') == 'cast' and x.get('w') and x['w'] < pw and (x.get('t') or '') != 'bool':
+                                narrow = (ai, x['w'], pw)
+                            x = f.resolve(x['sub'] if x.get('k') == 'cast' else (x['args'][0] if x.get('args') else None))
+                            d_ += 1
+                    if narrow:
+                        ok = False
                     res.ob(ok, {'rule': 'LEAF-1', 'function': sh(f.name)[:60], 'site': fileline(e.get('loc')), 'size_args': [a0, a1], 'verdict': 'discharged' if ok else 'VIOLATION'})
                     if not ok:
-                        res.find(f, e.get('loc'), 'make_db_leaf_ptr sizes the leaf from (%s, %s) instead of (key.size(), value.size()): the constructor copies key.size() + value.size() bytes' % (a0, a1), key='LEAF-1:alloc', config=cfg.name)
+                        res.find(f, e.get('loc'), 'make_db_leaf_ptr sizes the leaf from (%s, %s)%s instead of (key.size(), value.size()): the constructor copies key.size() + value.size() bytes' % (a0, a1, (' with the %s size passed through a %d-bit conversion although the leaf stores it in %d bits - the allocation is too small for a %s of 2^%d bytes or more and the copy overruns it' % ('value' if narrow[0] == 1 else 'key', narrow[1], narrow[2], 'value' if narrow[0] == 1 else 'key', narrow[1])) if narrow else ''), key='LEAF-1:alloc', config=cfg.name)
     res.floor('leaf classes', 4)
     res.floor('size functions', 4)
     res.floor('leaf allocations', 4)
